@@ -286,8 +286,8 @@ char *sasl_digest_md5(xmpp_ctx_t *ctx,
     xmpp_rand_nonce(ctx->rand, cnonce, sizeof(cnonce));
     hash_add(table, "cnonce", strophe_strdup(ctx, cnonce));
     hash_add(table, "nc", strophe_strdup(ctx, "00000001"));
-    if (hash_get(table, "qop") == NULL)
-        hash_add(table, "qop", strophe_strdup(ctx, "auth"));
+    /* the server sends a list of qop options; "auth" is the one we implement */
+    hash_add(table, "qop", strophe_strdup(ctx, "auth"));
     value = strophe_alloc(ctx, 5 + strlen(domain) + 1);
     memcpy(value, "xmpp/", 5);
     memcpy(value + 5, domain, strlen(domain));
